@@ -4,6 +4,8 @@
 //! soundness of the constraints against a malicious prover, a harness can queue substitute
 //! hint pairs here; each call of `isqrt` consumes one queued entry (`None` = keep the honest
 //! value) and records the `den` it was asked about.
+extern crate std;
+
 use crate::Fq;
 use ark_std::vec::Vec;
 use core::cell::RefCell;
